@@ -30,7 +30,7 @@ import random
 PROPERTY = "C15"
 LEVEL = "exploration"
 RULE = (
-    "case = (pipeline mode in {general, dialog, single_call, passthrough} x rails, conversation set of 2-3 conversations x 1-3 turns from an "
+    "case = (pipeline mode in {general, dialog, single_call, passthrough; a few Colang 2.x `llm continuation`} x rails, conversation set of 2-3 conversations x 1-3 turns from an "
     "adversarial text family (cache-key separator, role mimicry, JSON-looking texts, empty strings, legit shared prefixes, equal replies, plain), "
     "and EITHER one sequential interleaving of the turns (all interleavings when <=20, sampled above) OR a concurrent schedule = (task start order, "
     "release order of the parked LLM/rail calls; all orders when <=4 parked calls, sampled above) with per-conversation llm_params); "
@@ -45,7 +45,7 @@ ASSUMPTIONS = [
     "LLM attributes are judged at the instant _acall is entered (when a real client builds its request), and at rest",
     "each request runs in its own asyncio task with a copy of a clean context (a server's request handler); request message lists are deep-copied per call",
     "a conversation is identified by its message list: two conversations with IDENTICAL prefixes legitimately share cached events (family `prefix` checks that this sharing is harmless)",
-    "Colang 1.0 pipelines only (the events-history cache does not exist for 2.x, whose state is threaded explicitly by the caller)",
+    "Colang 2.x (no implicit cache; the caller threads the state object) is covered by a small plain-text workload only: llm continuation, 2 conversations",
     "classifier: cache-key-join only when an independent 8-line model of the role-free ':'-join says the violating request's longest cached prefix belongs to a DIFFERENT message list; "
     "llmparams-overlap only in the concurrent workload when a 15-line save/restore model fed with the observed LLMParams enter/exit order and the CORRECT per-call parameters reproduces every observed value",
 ]
@@ -55,7 +55,7 @@ CASE_WALL_S = 120
 CONFIGURED = {"temperature": 0.37, "max_tokens": 111, "model_kwargs": {"top_p": 0.93}}
 LOWEST_T = 0.001
 MODES = ("general", "dialog", "single_call", "passthrough")
-LLM_CALLS_PER_TURN = {"general": 1, "dialog": 3, "single_call": 1, "passthrough": 1}
+LLM_CALLS_PER_TURN = {"general": 1, "dialog": 3, "single_call": 1, "passthrough": 1, "v2": 2}
 PARAM_POOL = [
     None,
     {"temperature": 0.9},
@@ -288,6 +288,19 @@ def seq_cases(tier, seed):
                     }
 
 
+def seq_cases_v2(tier, seed):
+    """Colang 2.x: no implicit cache, the caller threads each conversation's state object; the instance is still shared"""
+    rng = random.Random(3500 + seed)
+    nsets, per_set = (1, 3) if tier == "quick" else (6, 6)
+    for i in range(nsets):
+        g = "z%d" % i
+        convs = [conv([[U("%s%d wonders w%d %s" % ("uv"[c], t, rng.randint(0, 99), g))] for t in range(2)]) for c in range(2)]
+        orders = list(interleavings([2, 2]))
+        rng.shuffle(orders)
+        for o in orders[:per_set]:
+            yield {"wl": "seq", "fam": "v2plain", "mode": "v2", "k": 0, "m": 0, "convs": convs, "answers": {}, "default": "hash", "order": o, "tag": g, "all_orders": per_set >= 6}
+
+
 def _round_robin(counts, rev):
     left = list(counts)
     out = []
@@ -323,9 +336,12 @@ def conc_cases(tier, seed):
         ("dialog", 2, 2, 0, 0),
         ("general", 2, 1, 1, 1),
         ("general", 3, 2, 1, 0),
+        ("v2", 2, 1, 0, 0),
     ]
     for rnd in range(rounds):
         for mode, n, turns, k, m in shapes:
+            if mode == "v2" and rnd % 2:
+                continue  # 2.x instances are an order of magnitude more expensive to build
             gi += 1
             g = "h%d" % gi
             pool = list(PARAM_POOL)
@@ -338,7 +354,7 @@ def conc_cases(tier, seed):
             starts = list(itertools.permutations(range(n)))
             total_calls = sum(counts)
             scheds = []
-            if total_calls <= 4:
+            if total_calls <= 4 and mode != "v2":
                 for s in starts:
                     for r in interleavings(counts):
                         scheds.append((list(s), r))
@@ -346,7 +362,7 @@ def conc_cases(tier, seed):
             else:
                 seen = set()
                 tries = 0
-                while len(scheds) < max_sched and tries < 1000:
+                while len(scheds) < (max_sched if mode != "v2" else max_sched // 2) and tries < 1000:
                     tries += 1
                     s = list(rng.choice(starts))
                     r = rand_interleaving(rng, counts) if tries > 2 else _round_robin(counts, tries == 2)
@@ -364,7 +380,7 @@ def conc_cases(tier, seed):
 
 def cases(tier, seed):
     i = 0
-    a, b = seq_cases(tier, seed), conc_cases(tier, seed)
+    a, b = itertools.chain(seq_cases(tier, seed), seq_cases_v2(tier, seed)), conc_cases(tier, seed)
     # alternate so that a --limit run sees both workloads
     for x, y in itertools.zip_longest(a, b):
         for c in (x, y):
@@ -486,6 +502,10 @@ def make_script(mode, answers, default):
 
     def script(prompt):
         tail = prompt.rstrip("\n").split("\n")[-1]
+        if mode == "v2":
+            if "user intent:" in tail:
+                return "user asked something"
+            return 'bot intent: bot answer\nbot action: bot say "%s"' % reply(prompt)
         if mode == "dialog":
             if tail.startswith('user "'):
                 return "  ask something"
@@ -507,10 +527,16 @@ class Inst:
         rails = W["rails"]
         L = W["L"]
         k, m, mode = case["k"], case["m"], case["mode"]
-        spec = {"ver": "v1", "k": k, "m": m, "mode": mode, "in_shapes": ["allowed"] * k, "out_shapes": ["allowed"] * m}
-        co, y = rails.build_v1(spec)
+        self.v2 = mode == "v2"
+        if self.v2:
+            k = m = 0
+            co, y = rails.build_v2({"ver": "v2", "k": 0, "m": 0})
+        else:
+            spec = {"ver": "v1", "k": k, "m": m, "mode": mode, "in_shapes": ["allowed"] * k, "out_shapes": ["allowed"] * m}
+            co, y = rails.build_v1(spec)
         cfg = L["RailsConfig"].from_content(co, y)
         self.log = rails.Log()
+        self.last_state = {}
         self.gate = None
         self.gate_rails = False
         self.llm = W["GatedLLM"](script=make_script(mode, case["answers"], case["default"]), log=self.log)
@@ -548,8 +574,8 @@ def _options(c):
     return {"llm_params": dict(c["params"])} if c.get("params") else None
 
 
-async def _request(inst, who, messages, options):
-    """one request = one task with its own copy of a clean context"""
+async def _request(inst, who, messages, options, state=None):
+    """one request = one task with its own copy of a clean context; returns (reply, exception[, new state for 2.x])"""
     import asyncio
     import contextvars
     import copy
@@ -559,10 +585,15 @@ async def _request(inst, who, messages, options):
     async def body():
         cur.set(who)
         try:
-            r = await inst.app.generate_async(messages=copy.deepcopy(messages), options=copy.deepcopy(options))
+            if inst.v2:
+                r = await inst.app.generate_async(messages=copy.deepcopy(messages), options=copy.deepcopy(options), state=copy.deepcopy(state) if state else {})
+            else:
+                r = await inst.app.generate_async(messages=copy.deepcopy(messages), options=copy.deepcopy(options))
         except Exception as e:
             return None, "%s: %s" % (type(e).__name__, str(e)[:160])
-        if options is not None:
+        if inst.v2:
+            inst.last_state[who] = getattr(r, "state", None)
+        if options is not None or inst.v2:
             resp = getattr(r, "response", r)
             msg = resp[0] if isinstance(resp, list) and resp else resp
         else:
@@ -573,6 +604,13 @@ async def _request(inst, who, messages, options):
 
     t = asyncio.get_running_loop().create_task(body(), context=contextvars.Context())
     return await t
+
+
+async def _serve(inst, who, history, add, c):
+    """1.0: the caller resends the whole history; 2.x: the caller sends the new messages and the state object it was handed"""
+    if inst.v2:
+        return await _request(inst, who, add, _options(c), state=inst.last_state.get(who))
+    return await _request(inst, who, history, _options(c))
 
 
 def _turn_record(log_items, who, reply, exc, request):
@@ -593,7 +631,7 @@ async def run_alone(inst, who, c):
     for t, add in enumerate(c["turns"]):
         msgs.extend(add)
         n0 = len(inst.log.items)
-        reply, exc = await _request(inst, who, msgs, _options(c))
+        reply, exc = await _serve(inst, who, msgs, add, c)
         out.append(_turn_record(inst.log.items[n0:], who, reply, exc, list(msgs)))
         rests.append(inst.rest())
         if reply is None:
@@ -618,7 +656,7 @@ async def run_seq(inst, case):
         nxt[who] += 1
         msgs[who].extend(c["turns"][t])
         n0 = len(inst.log.items)
-        reply, exc = await _request(inst, who, msgs[who], _options(c))
+        reply, exc = await _serve(inst, who, msgs[who], c["turns"][t], c)
         out[who].append(_turn_record(inst.log.items[n0:], who, reply, exc, list(msgs[who])))
         served.append([who, t])
         rests.append([who, t, inst.rest()])
@@ -646,7 +684,7 @@ async def run_conc(inst, case):
         recs = []
         for t, add in enumerate(c["turns"]):
             msgs.extend(add)
-            reply, exc = await _request(inst, who, msgs, _options(c))
+            reply, exc = await _serve(inst, who, msgs, add, c)
             recs.append({"reply": reply, "exc": exc, "request": list(msgs)})
             if reply is None:
                 break
@@ -910,7 +948,7 @@ def run_case(case):
         for who, t in served:
             rec = out[who][t]
             reqs.append((who, t, rec["request"], rec["reply"]))
-        tainted, collisions = taint_model(reqs)
+        tainted, collisions = taint_model(reqs) if case["mode"] != "v2" else ({}, 0)
         obs["join_collisions_in_case"] = collisions
         obs["cases_with_join_collision"] = 1 if collisions else 0
         for v in viol:
@@ -1009,7 +1047,7 @@ def run_case(case):
 def _cold_request(case):
     """conversation 0's second request, written down from the case texts alone (needs a predictable first reply)"""
     c = case["convs"][0]
-    if case["wl"] != "seq" or len(c["turns"]) < 2:
+    if case["wl"] != "seq" or len(c["turns"]) < 2 or case["mode"] == "v2":
         return None
     first = c["turns"][0]
     u = first[-1]["content"] if first[-1]["role"] == "user" else None
